@@ -390,10 +390,17 @@ func runExport(t *testing.T, rc *RunCtx) {
 	InitBLS()
 	ch := rc.Ch
 	pop := StdPopulation(t)
+	nKeys := 1 + ch.Pick(4, 0)
+	many := ch.Pick(8, 0) == 7
+	if many {
+		// A database with well over a hundred records (every key attests and proposes).
+		pop = BigPopulation(t)
+		nKeys = 55 + ch.Pick(80, 0)
+		rc.Stats.Inc("many_key_runs", 1)
+	}
 	s := NewSched(rc, SchedCfg{})
 	defer s.Close()
 	dir := NewRunDir(t)
-	nKeys := 1 + ch.Pick(4, 0)
 	uniq := uint64(0)
 	want := map[string]Watermark{}
 	legacy := ch.Pick(3, 0) == 2
@@ -436,6 +443,21 @@ func runExport(t *testing.T, rc *RunCtx) {
 	nOps := ch.Pick(14, 0)
 	if !legacy {
 		nOps += 2
+	}
+	if many {
+		// Every key signs one attestation and one proposal at its own height first.
+		for k := 0; k < nKeys; k++ {
+			uniq++
+			oa := &Op{Kind: "att", Client: "client1", Entries: []Entry{AttEntry(k, uint64(k), uint64(k+1), uniq)}}
+			uniq++
+			op := &Op{Kind: "prop", Client: "client1", Entries: []Entry{PropEntry(k, uint64(1000+k), uniq)}}
+			for _, o := range []*Op{oa, op} {
+				r := o.Exec(inst)
+				if w := model.Apply(o); w[0] != r.OK(0) {
+					rc.Violate("C09", "verdict-differs-from-reference", fmt.Sprintf("%s: reference %v, Dirk %v", o, w, r.States), k)
+				}
+			}
+		}
 	}
 	for i := 0; i < nOps; i++ {
 		k := ch.Pick(nKeys, 0)
